@@ -78,12 +78,21 @@ pub enum MKind {
     Dir(BTreeMap<String, Nid>),
 }
 
+/// expected timestamp: issued by the clock during an operation (tick range lo < t <= hi), set explicitly
+/// to the instant of a tick, or not tracked
+#[derive(Debug, Clone, Copy, PartialEq, Eq, Default)]
+pub enum Stamp {
+    #[default]
+    Unknown,
+    Range(u32, u32),
+    Exact(u32),
+}
+
 #[derive(Debug, Clone, Copy, PartialEq, Eq, Default)]
 pub struct Stamps {
-    /// clock ticks (index into the RefClock sequence) or None when unknown / set explicitly
-    pub created: Option<u32>,
-    pub modified: Option<u32>,
-    pub accessed: Option<u32>,
+    pub created: Stamp,
+    pub modified: Stamp,
+    pub accessed: Stamp,
 }
 
 #[derive(Debug, Clone, PartialEq, Eq)]
